@@ -200,6 +200,25 @@ func (c *Ctl) snapshot(id int, skipped bool) StepObs {
 	return o
 }
 
+// busyStack: the goroutine is neither parked at a gate nor blocked inside the library.
+// Waiting for a sync.Mutex / RWMutex counts as busy: no lock of the controller or of the
+// library is held across a gate, so such a wait is always about to end.
+func busyStack(g string) bool {
+	nl := strings.IndexByte(g, '\n')
+	head := g
+	if nl >= 0 {
+		head = g[:nl]
+	}
+	if strings.Contains(head, "[sync.Mutex.Lock") || strings.Contains(head, "[sync.RWMutex") {
+		return true
+	}
+	if hx.Blocked(g) {
+		return false
+	}
+	// the signal-listener goroutine of core/proc sits in [syscall] for ever
+	return !strings.Contains(g, "os/signal.signal_recv")
+}
+
 // Settle waits for quiescence.  It returns false on timeout.
 func (c *Ctl) Settle(timeout time.Duration) bool {
 	deadline := time.Now().Add(timeout)
@@ -210,7 +229,7 @@ func (c *Ctl) Settle(timeout time.Duration) bool {
 		gs := hx.Stacks()
 		quiet := atomic.LoadInt32(&c.busy) == 0
 		for _, g := range gs[1:] { // gs[0] is the caller (running)
-			if !hx.Blocked(g) && !strings.Contains(g, "os/signal.signal_recv") {
+			if busyStack(g) {
 				quiet = false // (the signal-listener goroutine of core/proc sits in [syscall] forever)
 				break
 			}
@@ -224,13 +243,15 @@ func (c *Ctl) Settle(timeout time.Duration) bool {
 			stable = 0
 		}
 		lastClock, lastN = clk, len(gs)
-		if quiet && stable >= 1 {
+		if quiet && stable >= 2 {
 			return true
 		}
 		if time.Now().After(deadline) {
 			return false
 		}
-		if spin < 50 {
+		if quiet {
+			time.Sleep(20 * time.Microsecond) // let anything that is about to run show up
+		} else if spin < 50 {
 			runtime.Gosched()
 		} else {
 			time.Sleep(20 * time.Microsecond)
